@@ -46,12 +46,12 @@ def field(name, value, pre=" ", post=""):
 
 
 @st.composite
-def header_field(draw):
+def header_field(draw, obs_fold=True):
     name = draw(st.sampled_from(NAMES))
     value = draw(st.one_of(st.sampled_from(VALUES),
                            st.text(alphabet=st.sampled_from(list("abcXYZ019 \t,;=\"/\xe9\xa0")), max_size=12)))
     value = value.strip(" \t")
-    if draw(st.integers(0, 11)) == 0 and value:
+    if obs_fold and draw(st.integers(0, 11)) == 0 and value:
         # obs-fold inside the value
         cut = draw(st.integers(0, len(value)))
         value = value[:cut].rstrip(" \t") + "\r\n" + draw(st.sampled_from([" ", "\t", "  "])) + value[cut:].lstrip(" \t")
@@ -88,7 +88,7 @@ def chunked_body(draw, body):
 
 @st.composite
 def request(draw, allow_expect=False, versions=("1.1", "1.1", "1.1", "1.0"), force_framing=None, small=False,
-            targets=None, body_strategy=None):
+            targets=None, body_strategy=None, obs_fold=True):
     method = draw(st.sampled_from(METHODS))
     target = draw(targets if targets is not None else st.sampled_from(TARGETS))
     version = draw(st.sampled_from(list(versions)))
@@ -97,7 +97,7 @@ def request(draw, allow_expect=False, versions=("1.1", "1.1", "1.1", "1.0"), for
         toks += [["sp", " "], ["version", "HTTP/" + version]]
     toks += [["crlf", CRLF]]
     nf = draw(st.integers(0, 3 if small else 6))
-    fields = [draw(header_field()) for _ in range(nf)]
+    fields = [draw(header_field(obs_fold=obs_fold)) for _ in range(nf)]
     framing = force_framing or draw(st.sampled_from(["none", "none", "cl", "cl", "chunked", "chunked"]))
     if version != "1.1" and framing == "chunked":
         framing = "cl"
